@@ -1,12 +1,18 @@
 #!/bin/bash
 # trial.sh <worktree> <patch> <prop> [seconds]: run a check against a patched
 # scratch worktree of the repository (mutant trials; never used for evidence).
+# The machinery is snapshotted first, so edits in /verif during the trial do
+# not mix versions.
 WT=$1; PATCH=$2; PROP=$3; SECS=${4:-20}
 TAG=$(basename $WT)_$(basename $PATCH .patch)_$PROP
+SRC=${VERIF_HOME:-/verif}
+mkdir -p /tmp/vb_$TAG/verif
+rsync -a --delete --exclude .build --exclude replays --exclude .git --exclude evidence --exclude seeded --exclude findings $SRC/ /tmp/vb_$TAG/verif/
+export VERIF_HOME=/tmp/vb_$TAG/verif
 export VERIF_REPO=$WT VERIF_BUILD=/tmp/vb_$TAG VERIF_REPLAYS=/tmp/vb_$TAG/replays VERIF_EVIDENCE=/tmp/vb_$TAG/evidence VERIF_SECONDS=$SECS
 git -C $WT checkout -q -- pkg cmd
 git -C $WT apply $PATCH || exit 9
-${VERIF_HOME:-/verif}/check $PROP quick > /tmp/vb_$TAG.out 2>/tmp/vb_$TAG.err; rc=$?
+$VERIF_HOME/check $PROP quick > /tmp/vb_$TAG.out 2>/tmp/vb_$TAG.err; rc=$?
 git -C $WT checkout -q -- pkg cmd
 echo "$TAG exit=$rc $(grep -m1 -A1 '^VIOLATION' /tmp/vb_$TAG.out | tr '\n' ' ' | cut -c1-300)"
-rm -rf /tmp/vb_$TAG/vsim /tmp/vb_$TAG/overlay /tmp/vb_$TAG/xsync /tmp/vb_$TAG/out
+rm -rf /tmp/vb_$TAG/vsim /tmp/vb_$TAG/overlay /tmp/vb_$TAG/xsync /tmp/vb_$TAG/out /tmp/vb_$TAG/verif
